@@ -188,6 +188,41 @@ static void discovery_procedures(int k) {
 }
 
 // ---------------------------------------------------------------------------------------------
+// all (start, end) pairs over the "interesting" handles (every attribute handle and its neighbours, 1, 0xFFFF) for the
+// discovery requests; every response is judged by the per-request oracle in att_check.hpp (C02, C03)
+static void range_sweep(int k) {
+    std::set<std::uint16_t> hs;
+    hs.insert(1); hs.insert(0xFFFF); hs.insert(0xFFFE);
+    for (std::size_t i = 0; i < decl::n_attrs; ++i) {
+        const std::uint16_t h = decl::attrs[i].handle;
+        hs.insert(h); if (h > 1) hs.insert(h - 1); if (h < 0xFFFF) hs.insert(h + 1);
+    }
+    std::vector<std::uint16_t> v(hs.begin(), hs.end());
+    // bound the quadratic cost: keep at most 48 handles (all around service boundaries, evenly spaced others)
+    if (v.size() > 48) {
+        std::set<std::uint16_t> keep; keep.insert(1); keep.insert(0xFFFF);
+        for (std::size_t i = 0; i < decl::n_svcs; ++i) { keep.insert(decl::svcs[i].first); if (decl::svcs[i].first > 1) keep.insert(decl::svcs[i].first - 1); keep.insert(decl::svcs[i].last); keep.insert(decl::svcs[i].last + 1); }
+        for (std::size_t i = 0; keep.size() < 48 && i < v.size(); i += std::max<std::size_t>(1, v.size() / 24)) keep.insert(v[i]);
+        v.assign(keep.begin(), keep.end());
+    }
+    std::vector<bytes> types;
+    { bytes t; put16(t, 0x2800); types.push_back(t); } { bytes t; put16(t, 0x2803); types.push_back(t); } { bytes t; put16(t, 0x2902); types.push_back(t); }
+    for (std::size_t i = 0; i < decl::n_chars && types.size() < 6; i += 2) types.push_back(bytes(decl::chars[i].uuid, decl::chars[i].uuid + decl::chars[i].uuid_len));
+    unsigned long n = 0;
+    for (std::size_t a = 0; a < v.size(); ++a) for (std::size_t b = a; b < v.size(); ++b) {
+        const std::uint16_t s = v[a], e = v[b];
+        { bytes r; r.push_back(0x04); put16(r, s); put16(r, e); exchange(k, r, "C02"); ++n; }
+        { bytes r; r.push_back(0x10); put16(r, s); put16(r, e); put16(r, 0x2800); exchange(k, r, "C03"); ++n; }
+        for (std::size_t si = 0; si < decl::n_svcs; ++si) {
+            bytes r; r.push_back(0x06); put16(r, s); put16(r, e); put16(r, 0x2800); r.insert(r.end(), decl::svcs[si].uuid, decl::svcs[si].uuid + decl::svcs[si].uuid_len); exchange(k, r, "C03"); ++n;
+        }
+        for (const bytes& t : types) { bytes r; r.push_back(0x08); put16(r, s); put16(r, e); r.insert(r.end(), t.begin(), t.end()); exchange(k, r, "C02"); ++n; }
+    }
+    mon("C02").cls("range_sweep"); mon("C03").cls("range_sweep");
+    mon("C02").count("range_sweep_requests", n);
+}
+
+// ---------------------------------------------------------------------------------------------
 // C14
 struct ad_item { std::uint8_t type; bytes data; };
 
